@@ -50,6 +50,22 @@ checks = {
    text="all schedules with <=2 (quick) / <=3 (thorough) preemptions of 2-4 threads x 1-2 operations on the real price cache under a cooperative scheduler, each history checked for linearizability by brute force and for forward-only timestamps; lib.Median enumerated over boundary lists; a separate free-running -race pass of the same bodies",
    note="scheduling points are the cache's mutex operations; memory-model effects beyond the race detector and the gRPC plumbing are outside",
    technique="stateless model checking (DFS over schedules with iterative preemption bounding) + brute-force linearizability + bounded-exhaustive input enumeration + race-detector pass"),
+ "C07": dict(engine=E1, level="model_checking",
+   text="a round monitor written from the statement (acceptance guard, replacement, exactly-one aggregate per closed round, tips stay/are paid, cycle rotation rule) evaluated on an exhaustive DFS over tips/reports/rotation/governance events and on all deviation-bounded histories",
+   note="'scheduled cycle-list query' is read per round (the rotation's flag on the round); deposits may re-open their round as the statement allows; one direction for acceptance, as stated",
+   technique="explicit-state DFS with state-hash dedup + deviation-bounded exploration, transition monitor as lock-step reference"),
+ "C09": dict(engine=E1, level="model_checking",
+   text="exact-rational reward reference at every EndBlock over commission-rate/topology worlds (incl. every out-of-range rate CreateReporter accepts), a reporter paid for two aggregates in one block, an exhaustive DFS and all deviation-bounded histories",
+   note="proportional shares are compared up to (2R+terms)x1e-18 because the implementation multiplies an 18-decimal power ratio by the reward; sums up to terms x 1e-18; out-of-range commission rates are a recorded known finding",
+   technique="explicit-state exploration with an exact-arithmetic reference model evaluated in lock-step"),
+ "C10": dict(engine=E1, level="model_checking",
+   text="every accepted report's power and stake snapshot are compared with an independent recomputation from the staking/selector stores; join/cap/jail rules and the no-double-counting window are monitored; exhaustive DFS in two validator-cap worlds + deviation-bounded histories",
+   note="multi-message transactions containing a report or join are not compared (reference state is taken before the whole tx)",
+   technique="explicit-state DFS with state-hash dedup + deviation-bounded exploration with a lock-step reference"),
+ "C12": dict(engine=E1, level="model_checking",
+   text="TallyVote on every injected vote distribution over small counters/participation levels/timings against an exact-rational formula, plus a lifecycle/vote monitor (status edges, vote window, voter power, counter sums, recorded result) on an exhaustive DFS over vote orders and on all deviation-bounded histories",
+   note="scores closer than 4e-6 accept either neighbour, exact ties accept any decided result; a team-address change during voting follows the implementation (statement silent)",
+   technique="bounded-exhaustive state injection + explicit-state DFS with a lock-step reference model"),
 }
 design = {"C02": "§3 C02", "C03": "§3 C03", "C04": "§3 C04", "C05": "§3 C05", "C08": "§3 C08", "C19": "§3 C19"}
 
